@@ -38,9 +38,15 @@ _C18_IMPL = _re.compile(r" used=(\d+) sw=(\d+)$")
 _C18_MODEL = _re.compile(r" cost=(\d+) mwp=([01]) w=(\d+)$")
 
 def c18_project(op, a):
-    if op.startswith("dynde "):
-        a = _C18_IMPL.sub("", a)
-        a = _C18_MODEL.sub("", a)
+    """C18 constrains: no panic, allocation bounded, and whatever the encoder accepts decodes again and re-encodes to
+    the same bytes - all three decided by the harness oracle / the joint allocation rule on every op. WHICH inputs
+    are accepted, and what a decode of arbitrary bytes yields, is constrained only on C17's domain (real values;
+    compared there). So `dynser` / `dynde` answers are not compared with the model's beyond `FAIL` (false alarm on
+    a neutral codec that refuses duplicate field names, demands null for unit kinds, decodes NaN as null ...)."""
+    if a.startswith("FAIL"):
+        return a
+    if op.startswith(("dynser ", "dynde ")):
+        return "answered"
     return a
 
 def c18_joint(op, impl, model, stats):
